@@ -29,6 +29,11 @@ NONMUT = {'find', 'begin', 'end', 'cbegin', 'cend', 'rbegin', 'rend', 'front', '
           'wait', 'wait_for', 'wait_until', 'notify_one', 'notify_all', 'lock', 'unlock', 'try_lock', 'load', 'join', 'native_handle',
           'before_begin', 'cbefore_begin', 'owns_lock', 'get_id', 'length', 'value', 'has_value'}
 # element-of accessors: result designates an element (or the pointee) of the object
+def _is_iter(v):
+    # a standard iterator local designates an element of the container it was obtained from
+    return 'iterator' in (v.get('ctype') or '').lower() and not v.get('isref')
+
+
 ELEMENT_OF = {'front', 'back', 'at', 'operator[]', 'operator*', 'operator->', 'get', 'begin', 'end', 'find', 'data', 'cbegin', 'cend', 'value'}
 TRANSPARENT_STD = {'std::move', 'std::forward', 'std::as_const', 'std::addressof', 'std::launder'}
 STD_SYNC_ALGOS = {'std::remove_if', 'std::erase_if', 'std::any_of', 'std::all_of', 'std::none_of', 'std::find_if', 'std::for_each',
@@ -103,6 +108,9 @@ def compute_modes(fn):
                 if inroot: d(a, 'R')
                 elif pt.endswith('&&'):
                     # forwarding / rvalue reference of a std API: consumes (moves from) an xvalue argument, reads an lvalue one
+                    d(a, 'W' if (a is not None and _is_xvalue(a)) else 'R')
+                elif pt.endswith('&') and not pt.startswith('const ') and base.startswith(('emplace', 'try_emplace')) and q.startswith('std::'):
+                    # a collapsed forwarding reference (Args&& with Args = T&): the element constructor copies from an lvalue
                     d(a, 'W' if (a is not None and _is_xvalue(a)) else 'R')
                 elif pt.endswith('&') and not pt.startswith('const '): d(a, 'W')
                 else: d(a, 'R')
@@ -289,7 +297,7 @@ class Engine:
                 if x.k == 'decl':
                     for v in x.vars:
                         init = Node(x.tu, v['init']) if v.get('init') and v['init'] in x.tu.ex else None
-                        if init is not None and (v.get('isref') or v.get('isptr')):
+                        if init is not None and (v.get('isref') or v.get('isptr') or _is_iter(v)):
                             p = self.path_of(init, sub)
                             if p and p[0] not in ('?', 'tmp'): sub.env[v['decl']] = p
                 elif x.k == 'return' and x.n('sub') is not None:
@@ -397,7 +405,7 @@ class Engine:
                         c = self.closure_of(init, fr)
                         if c is not None: fr.clos[v['decl']] = c
                     # alias: reference-typed local (or single-assignment pointer) bound to a path
-                    if init is not None and (v.get('isref') or v.get('isptr')):
+                    if init is not None and (v.get('isref') or v.get('isptr') or _is_iter(v)):
                         p = self.path_of(init, fr)
                         if p and p[0] not in ('?', 'tmp'):
                             fr.env[v['decl']] = p
